@@ -2,6 +2,9 @@ package main
 
 import (
 	"io"
+	"math/rand"
+	"sync/atomic"
+	"time"
 
 	"github.com/Breeze0806/go/log"
 	gobinlog "github.com/Breeze0806/gobinlog"
@@ -9,5 +12,34 @@ import (
 
 func init() {
 	// the library logs every event at debug level to stderr by default
+	quietLog()
+}
+
+func quietLog() {
 	gobinlog.SetLogger(log.NewDefaultLogger(io.Discard, log.ErrorLevel, ""))
+}
+
+// slowSink is a log destination that stalls its caller for a random time up to slowLogMax: a slow or contended log
+// sink widens every window between two statements that have a log call in between (used by the stream-level
+// scenarios of C05 / C06; the library's goroutines log from inside their exit paths).
+type slowSink struct{}
+
+var slowLogMax int64 // nanoseconds
+
+func (slowSink) Write(p []byte) (int, error) {
+	if m := atomic.LoadInt64(&slowLogMax); m > 0 {
+		time.Sleep(time.Duration(rand.Int63n(m)))
+	}
+	return len(p), nil
+}
+
+// slowLog switches the library to a debug-level logger writing to the slow sink; the returned function restores the
+// quiet logger. Call only while no library goroutine is running.
+func slowLog(max time.Duration) func() {
+	atomic.StoreInt64(&slowLogMax, int64(max))
+	gobinlog.SetLogger(log.NewDefaultLogger(slowSink{}, log.DebugLevel, ""))
+	return func() {
+		atomic.StoreInt64(&slowLogMax, 0)
+		quietLog()
+	}
 }
